@@ -137,6 +137,150 @@ def state_steps(lines: List[Dict[str, Any]]) -> Tuple[List[Dict[str, Any]], Dict
     return steps, final
 
 
+# ---- time-step statistics (spec/HiveStats.tla; beyond the listed properties: conformance divergences only) ----------
+
+def guard_stats_handler(rp) -> Tuple[Any, List[str]]:
+    """the time-step statistics handler of the run, its handle() wrapped so that an exception inside it is recorded instead
+    of ending the run (the run is a C19 run first)"""
+    from nrel.hive.reporting.handler.time_step_stats_handler import TimeStepStatsHandler
+
+    errors: List[str] = []
+    for h in rp.e.reporter.handlers:
+        if isinstance(h, TimeStepStatsHandler):
+            inner = h.handle
+
+            def handle(reports, runner_payload, _inner=inner):
+                try:
+                    _inner(reports, runner_payload)
+                except Exception as ex:       # noqa: BLE001 - whatever it is, it is reported as a divergence
+                    errors.append(f"{type(ex).__name__}: {ex}"[:160])
+
+            h.handle = handle
+            inner_close = h.close
+
+            def close(runner_payload, _inner=inner_close):
+                try:
+                    _inner(runner_payload)
+                except Exception as ex:       # noqa: BLE001 - the other handlers still have to write their files
+                    errors.append(f"close: {type(ex).__name__}: {ex}"[:160])
+
+            h.close = close
+            return h, errors
+    return None, errors
+
+
+def _fleets_of_report(r: Dict[str, Any]) -> List[str]:
+    import ast
+
+    txt = r.get("vehicle_memberships")
+    try:
+        val = ast.literal_eval(txt) if isinstance(txt, str) else txt
+    except Exception:
+        val = None
+    return sorted(str(x) for x in val) if isinstance(val, (list, tuple, set, frozenset)) else []
+
+
+def stats_inputs(lines: List[Dict[str, Any]]) -> List[Dict[str, Any]]:
+    """per step: the state at the END of the step and the reports filed during it (from the hook-recorded lines)"""
+    veh: Dict[str, Dict[str, Any]] = {}
+    req: Dict[str, Dict[str, Any]] = {}
+    caps: Dict[str, int] = {}
+    fleets: List[str] = []
+    reps: List[Dict[str, Any]] = []
+    out = []
+    for e in lines:
+        if e["ev"] == "init":
+            caps = {i: c for i, c in e.get("caps", [])}
+            fleets = list(e.get("fleetids", []))
+        d = e.get("d") or {}
+        for i, r in d.get("veh", []):
+            veh[i] = r
+        for i in d.get("rmveh", []):
+            veh.pop(i, None)
+        for i, r in d.get("req", []):
+            req[i] = r
+        for i in d.get("rmreq", []):
+            req.pop(i, None)
+        reps.extend(e.get("rep") or [])
+        if e["ev"] == "end":
+            vs = []
+            for i in sorted(veh):
+                r = veh[i]
+                cap = caps.get(i) or 0
+                vs.append({"id": i, "act": r["act"], "avail": bool(r.get("avail", True)), "fleets": sorted(r.get("fleets", [])),
+                           "soc": int(round(r["en"] * 10000 / cap)) if cap else 0,
+                           "pooled": len(r.get("obdest", [])) if r["act"] == "ServicingPoolingTrip" else 0,
+                           "planned": len(r.get("obdest", [])) if r["act"] == "DispatchPoolingTrip" else 0})
+            out.append({
+                "veh": vs, "req": [{"id": i, "assigned": bool(req[i].get("disp"))} for i in sorted(req)], "fleets": fleets,
+                "moves": [{"fleets": _fleets_of_report(r), "m": tracer.q(float(r.get("distance_km", 0.0)), tracer.D_SCALE)}
+                          for r in reps if r["type"] == "vehicle_move_event"],
+                "charges": [{"fleets": _fleets_of_report(r), "charger": str(r.get("charger_id"))} for r in reps if r["type"] == "vehicle_charge_event"],
+                "cancels": [str(r.get("request_id")) for r in reps if r["type"] == "cancel_request_event"]})
+            reps = []
+    return out
+
+
+def _stats_row(raw: Dict[str, Any], chargers: List[str]) -> Dict[str, Any]:
+    """a row of the statistics (as parsed back from the csv file, or as the handler holds it) in the integers of the spec"""
+    def num(x):
+        try:
+            return float(x)
+        except Exception:
+            return None
+
+    row: Dict[str, Any] = {}
+    for k, v in raw.items():
+        if k in ("sim_time",):
+            continue
+        f = num(v)
+        if k == "avg_soc_percent":
+            row["soc"] = -1 if f is None else int(round(f * 100))
+        elif k == "vkt":
+            row["vkt"] = -1 if f is None else tracer.q(f, tracer.D_SCALE)
+        elif k.startswith("charger_"):
+            continue
+        else:
+            row[k] = -1 if f is None else int(f)
+    row["chargers"] = {c: (int(num(raw.get(f"charger_{c.lower()}"))) if num(raw.get(f"charger_{c.lower()}")) is not None else -1) for c in chargers}
+    return row
+
+
+def stats_lines(item_id: str, handler, errors: List[str], out_dir: Path, lines: List[Dict[str, Any]], chargers: List[str]) -> List[Dict[str, Any]]:
+    """the "stats" lines of one run: the global rows parsed back from the WRITTEN file, the per-fleet rows as the handler
+    holds them (and whether the written per-fleet files can be read back at all)"""
+    import csv
+
+    out: List[Dict[str, Any]] = []
+    inputs = stats_inputs(lines)
+    for msg in sorted(set(errors)):
+        out.append({"k": "stats_abort", "id": item_id, "error": msg, "n": errors.count(msg)})
+    path = out_dir / "time_step_stats_all.csv"
+    rows = list(csv.DictReader(path.open())) if path.exists() else []
+    if not path.exists() or len(rows) != len(inputs):
+        out.append({"k": "stats_file", "id": item_id, "what": "time_step_stats_all.csv", "rows": len(rows), "steps": len(inputs)})
+    for i, (raw, inp) in enumerate(zip(rows, inputs)):
+        out.append({"k": "stats", "id": item_id, "i": i, "fleet": "", "chargers": chargers, "row": _stats_row(raw, chargers), **inp})
+    if handler is not None and getattr(handler, "log_fleet_time_step_stats", False):
+        for fleet_id, data in sorted(handler.get_fleet_time_step_stats().items(), key=lambda kv: str(kv[0])):
+            by_step = {int(r["time_step"]): r for r in (data or [])}
+            for i, inp in enumerate(inputs):
+                if i + 1 in by_step:
+                    out.append({"k": "stats", "id": item_id, "i": i, "fleet": str(fleet_id), "chargers": chargers,
+                                "row": _stats_row(by_step[i + 1], chargers), **inp})
+            # the written per-fleet file: can its rows be read back?
+            fpath = out_dir / "fleet_time_step_stats" / f"time_step_stats_{fleet_id}.csv"
+            if data:
+                ok = False
+                if fpath.exists():
+                    back = list(csv.reader(fpath.open()))
+                    ok = len(back) == len(data) + 1 and all(str(r.get("time_step")) == b[0] for r, b in zip(data, back[1:]))
+                if not ok:
+                    out.append({"k": "stats_file", "id": item_id, "what": "fleet_time_step_stats/time_step_stats_<fleet>.csv",
+                                "rows": -1, "steps": len(data)})
+    return out
+
+
 def run_events(item: Dict[str, Any], work: Path, out_path: Path) -> Dict[str, Any]:
     """one run through the real file-writing handlers; writes the HiveEvents log"""
     from nrel.hive.app import hive_cosim
@@ -144,12 +288,12 @@ def run_events(item: Dict[str, Any], work: Path, out_path: Path) -> Dict[str, An
     seed = item["seed"]
     rng = random.Random(seed)
     if item.get("scenario"):
-        rp = world.load(Path(item["scenario"]), work / "out", write_outputs=True, suffix=item["id"])
+        rp = world.load(Path(item["scenario"]), work / "out", write_outputs=True, suffix=item["id"], time_step_stats=True)
         gens = None
     else:
         w = adv.gen_world(rng, n_steps=item["steps"], **(item.get("world_kwargs") or {}))
         scen = world.write_world(work / f"world_{item['id']}", w)
-        rp = world.load(scen, work / "out", write_outputs=True, suffix=item["id"])
+        rp = world.load(scen, work / "out", write_outputs=True, suffix=item["id"], time_step_stats=True)
         if w.get("preload"):
             rp = runs.preload_requests(rp, w["preload"])
         gens = []
@@ -163,6 +307,7 @@ def run_events(item: Dict[str, Any], work: Path, out_path: Path) -> Dict[str, An
                 gens += [Dispatcher(rp.e.config.dispatcher), ChargingFleetManager(rp.e.config.dispatcher)]
         rp = runs.set_generators(rp, gens)
     tr = tracer.Tracer(None, with_route=False, keep=True, run_id=item["id"])
+    stats_handler, stats_errors = guard_stats_handler(rp)
     rp = runs.crank_traced(rp, item["steps"], tr, {"builtin": False, "scenario": item["id"]})
     summary = rp.e.reporter.get_summary_stats(rp) or {}
     from nrel.hive.reporting.handler.stats_handler import StatsHandler
@@ -187,6 +332,8 @@ def run_events(item: Dict[str, Any], work: Path, out_path: Path) -> Dict[str, An
             if len(blocks) != len(steps) and i == n - 1:
                 log = dict(log, bad=log["bad"] + abs(len(blocks) - len(steps)))     # the log has another number of steps than the run
             f.write(json.dumps({"k": "step", "id": item["id"], "i": i, "cancel": cancel, "dt": dt, "log": log, "state": st}, separators=(",", ":")) + "\n")
+        for ln in stats_lines(item["id"], stats_handler, stats_errors, out_dir, tr.lines, sorted(rp.e.chargers.keys())):
+            f.write(json.dumps(ln, separators=(",", ":")) + "\n")
         f.write(json.dumps({"k": "final", "id": item["id"], **final,
                             "summary": {"requests": counts["requests"], "cancelled": counts["cancelled"],
                                         "vkt": tracer.q(float(summary.get("total_vkt", 0.0)), tracer.D_SCALE)}},
